@@ -12,8 +12,13 @@ RULE = ('family = one generated pipeline with a prefetch / parallel-map stage; '
         'give the consumer priority from the stop on (exact cancellation oracle). '
         'A run is non-trivial if it had at least one real context switch; distinct '
         '= distinct (pipeline, stop kind, k, fault plan, schedule signature), the '
-        'signature hashing (from thread, to thread, source line) of every switch.')
-PROBES = ['future_cancelled_while_pending', 'user_code_between_stop_and_return',
+        'signature hashing (from thread, to thread, source line) of every switch. '
+        'Every 40th family is systematic instead: a tiny workload (n <= 3, workers <= 2, '
+        'buffer <= 2) with one stop point, run under the non-preemptive baseline schedule '
+        'and under ALL schedules that differ from it by exactly one forced context '
+        'switch (or fired timeout) at any decision point.')
+PROBES = ['all_single_preemption_schedules_of_a_tiny_workload',
+          'future_cancelled_while_pending', 'user_code_between_stop_and_return',
           'stop_before_first_example']
 BUDGET = {
     'quick': {'families': 4200, 'wall_cap': 420, 'shrink_s': 15},
@@ -26,7 +31,24 @@ STRICT_SCHED = {'policy': 'phased', 'params': {'phases': {
     'default': {'policy': 'random'}}}}
 
 
+def gen_systematic(rng):
+    """Tiny workload, one stop point, ALL schedules with one forced switch."""
+    desc = parprops.tiny_desc(rng)
+    n = desc['source']['n']
+    kind = rng.choice(['close', 'drop', 'cycle_gc', 'exhaust'])
+    base = {'desc': desc, 'epochs': 1, 'faults': [], 'cost_seed': None, 'think_seed': 0,
+            'think_max': 0, 'trace': ['parallel_utils'], 'systematic': 1,
+            'stop': {'kind': 'exhaust'} if kind == 'exhaust' else
+            {'kind': kind, 'k': rng.randrange(0, n + 1), 'delay': 1}}
+    if rng.random() < 0.3:
+        base['faults'] = [{'stage': 'u0', 'pos': rng.randrange(n),
+                           'exc': rng.choice(['value', 'base'])}]
+    return parprops.one_preemption_cases(base, parrun.run_par_case)
+
+
 def gen(rng, tier, index):
+    if index % 40 == 39:
+        return gen_systematic(rng)
     strict = rng.random() < 0.5
     backends = ('t',) if rng.random() < 0.6 else tuple(pargen.BACKENDS_POOL)
     desc, a = pargen.gen_desc(
@@ -62,6 +84,9 @@ def gen(rng, tier, index):
 def run(case):
     res = parrun.run_par_case(case)
     out = parprops.base_outcome(case, res)
+    if case.get('systematic'):
+        out['fired']['systematic_one_preemption'] = 1
+        out['probes']['all_single_preemption_schedules_of_a_tiny_workload'] = 1
     if not parprops.check_failure(case, res, out):
         parprops.check_clean_stop(case, res, out)
     return out
